@@ -61,7 +61,12 @@ class RemoveDebug(SuiteTransformer):
 
     def suite(self, node_list, parent):
 
-        without_debug = [self.visit(a) for a in self.without_debug(node_list)]
+        remaining = list(self.without_debug(node_list))
+        without_debug = [self.visit(a) for a in remaining]
+
+        if self.becomes_docstring(node_list, remaining, parent):
+            # Keep the string statement out of the docstring position
+            without_debug.insert(0, self.add_child(ast.Expr(value=ast.Num(0)), parent=parent))
 
         if len(without_debug) == 0:
             if isinstance(parent, ast.Module):
